@@ -176,9 +176,11 @@ func c13Run(c *core.Ctx) {
 	}
 
 	// ---------------- P1 tables
-	cells := []string{"a", "", "x y", `"a,b"`, `"a""b"`}
+	// `5" x`: a bare quote inside an unquoted cell (inch marks), which real
+	// tables contain and which the statement does not exclude
+	cells := []string{"a", "", "x y", `"a,b"`, `"a""b"`, `5" x`}
 	if c.Thorough() {
-		cells = []string{"a", "1", "", "x y", "é", `"q"`, `"a,b"`, `"a""b"`}
+		cells = []string{"a", "1", "", "x y", "é", `"q"`, `"a,b"`, `"a""b"`, `5" x`}
 	}
 	c.Info("P1.cells", strings.Join(cells, "|"))
 	build := func(rows [][]string, delim, eol string, final bool) []byte {
